@@ -66,7 +66,21 @@ Fixpoint bytes_eqb (a b : list N) : bool :=
   end.
 
 Definition upper_byte (b : N) : N := if (97 <=? b) && (b <=? 122) then b - 32 else b.
-Definition to_upper (s : list N) : list N := map upper_byte s.   (* strings.ToUpper on ASCII *)
+(* strings.ToUpper, exact wherever its result is compared with an ASCII constant: ASCII letters, and the two code points whose
+   upper case is an ASCII letter -- U+0131 (dotless i, bytes C4 B1) -> I and U+017F (long s, bytes C5 BF) -> S.  The lexer's
+   keyword lookup upper-cases the same way, so `dıv` IS the keyword DIV and its operator text must upper-case to "DIV" *)
+Fixpoint to_upper (s : list N) : list N :=
+  match s with
+  | [] => []
+  | b :: t =>
+      match t with
+      | c :: t' =>
+          if (b =? 196) && (c =? 177) then 73 :: to_upper t'
+          else if (b =? 197) && (c =? 191) then 83 :: to_upper t'
+          else upper_byte b :: to_upper t
+      | [] => [upper_byte b]
+      end
+  end.
 
 Definition is_digit_byte (b : N) : bool := (48 <=? b) && (b <=? 57).
 Definition is_word_byte (b : N) : bool :=
